@@ -36,7 +36,7 @@ def slices(tier):
         Slice("cross", [P, Q], {"cross", "dot", "inner", "outer", "neg", "index"}, 2, maxdim=3, idx=(10,), gdim=3, zeros=[(3,)]),
         Slice("complex", [F, U], {"conj", "real", "imag", "abs", "mul", "inner", "outer", "dot", "pow"}, 2, lits=[L["i"], L["two"]], complex_env=True),
         # elementary functions at their rational points (z = 0 and o = 1 in every environment; f generic: undefined)
-        Slice("math", [("z", ()), ("o", ()), F], MATH | {"mul", "add", "sub"}, 2, fixed={"z": 0, "o": 1}),
+        Slice("math", [("z", ()), ("o", ()), F], MATH | {"mul", "add", "sub", "atan2"}, 2, fixed={"z": 0, "o": 1}),
         # zeros that carry free indices of different extents (0*u[i]*w[j]) under binding in either index order
         Slice("zeros-mixed", [U, ("w", (3,))], {"as_tensor", "index", "outer", "mul", "add"}, 2, idx=(10, 11), zerofi=[((10, 2), (11, 3))], maxdim=3, mikinds=("name",), tiny=True),
         Slice("cond", [F, G], {"lt", "ge", "eq", "ne", "and", "or", "not", "cond", "max", "min", "sign"}, 2, lits=[L["zero"]]),
